@@ -326,6 +326,7 @@ def symbolic_for(I, frame, s, it, ordinal):
                 ctx.oblige("%s/iteration[%s]" % (name, lab), _b(f), kind="loop")
         raise PathEnd()
     ctx.assume(i == n)
+    ctx.ghost.setdefault("loops_done", {})[ordinal] = it      # the loop ran to exhaustion over this sequence (for function-level postconditions)
     I.exec_block(frame, s.orelse)
 
 
